@@ -54,7 +54,7 @@ MANIFEST = {
             "millisecond-exact, created <= modified on the 37 classes with both common properties; the rest seeded) and "
             "Spec/StixValid.v (valid_obj_x: also strict base64, dictionary values); the stix2patterns validator as pattern oracle; the "
             "C08 model for granular-marking selectors; the harness (generators, the output-repair classification of known "
-            "findings). The model-to-code tie is the correspondence run (exact output text and error class on ~1450 generated "
+            "findings). The model-to-code tie is the correspondence run (exact output text and error class on ~2850 generated "
             "calls per quick run, 24 run-time detected variant switches; the inherited part of _check_object_constraints is "
             "matched by source text) plus the oracle: every strict success of the "
             "implementation is serialized and judged by the kernel-evaluated validator.",
@@ -583,6 +583,28 @@ def boundary_cases(failures, live, g, rng, per_failure=12):
 
 # ---------------------------------------------------------------------------
 
+SPECIAL_CLASSES = ("NetworkTraffic", "Malware", "Location", "EmailMessage", "MarkingDefinition", "SocketExt", "ObservedData",
+                   "Indicator", "Artifact", "File", "Process", "ExternalReference", "GranularMarking", "Sighting", "Campaign")
+
+
+def special_constraint_cases(g, rng):
+    """The class-specific co-constraint violations (TLP instance rules, end / is_active, family without name,
+    coordinates, multipart, socket options, patterns, ordered timestamps ...) on one object of each such class, in strict
+    mode, on every run -- the random choice of three corruptions per object reaches each of them only now and then."""
+    cases = []
+    for cid, c in g.classes.items():
+        if c["name"] not in SPECIAL_CLASSES:
+            continue
+        o = g.obj(cid, 0, {"safe": True}, optional_p=0.3)
+        routes = ["parse", "construct"] if sc.is_toplevel(g, cid) else ["construct"]
+        for n, (_, lab, x) in enumerate(stixgen.coconstraint_corruptions(g, cid, o)):
+            if lab.startswith("modified-") and lab != "modified-just-before-created":
+                continue
+            cases += sc.route_cases(g, cid, x, {"origin": "corrupt", "ckind": "co-constraint", "slot": lab, "cid": cid}, rng,
+                                    [routes[n % len(routes)]])
+    return cases
+
+
 def trivial(case, impl_line):
     return impl_line in ("ERR ExtraPropertiesError", "ERR ParseError")
 
@@ -632,9 +654,10 @@ def check(run):
         "and the boundary inputs of every failing refinement slot; non-trivial = not rejected as unknown property / unknown type")
     gen_ok = sc.translate_and_build(run, "Props/C02.v")
     variants = sc.detect_variants(run)
-    g, cases = sc.gen_cases(run.rng, per_class=2 if quick else 12, corrupt_per_obj=3 if quick else 8,
+    g, cases = sc.gen_cases(run.rng, per_class=3 if quick else 12, corrupt_per_obj=5 if quick else 8,
                             allow_share=0.15)
     cases += witness_cases()
+    cases += special_constraint_cases(g, run.rng)
     # the kernel-evaluated refinement of the regenerated tables against the frozen spec
     failures = []
     live = None
